@@ -191,6 +191,7 @@ def play(lt, ops, crash=None, trace=False, on_step=None):
     pl = Played()
     node = lt.start()
     pending = {}
+    life = 0            # process lifetime index; an op records the lifetime it was stored in
     try:
         must_ok(node.cmd(DEFINE), "define")
         must_ok(node.cmd(DEFINE2), "define2")
@@ -204,6 +205,7 @@ def play(lt, ops, crash=None, trace=False, on_step=None):
                     node.meta(a)
                 continue
             if o == "store":
+                op["life"] = life
                 pending[op["k"]] = op
                 rep = node.cmd(store_text(op))
                 if not rep.ok:
@@ -229,10 +231,12 @@ def play(lt, ops, crash=None, trace=False, on_step=None):
                 node.syncflush()          # quiescent, so the first lifetime's outcome is deterministic
                 pl.applied.update(pending); pending = {}
                 node = lt.restart_kill()
+                life += 1
             elif o == "restart_clean":
                 node.syncflush()
                 pl.applied.update(pending); pending = {}
                 node = lt.restart_clean()
+                life += 1
             if on_step:
                 on_step(i, op, node)
         if trace:
